@@ -159,15 +159,17 @@ CHECKS = {
         technique="Coq proof (case analysis over all fault points of the step model, induction over copy blocks) on a model whose format table is translated from the source + vm_compute correspondence with exhaustive fault injection",
         design="5/C12"),
     "C13": dict(
-        text=("32 theorems about list models of the compaction in Collocator._create_return, _rows_for_secondaries, the NaN-padded "
-              "bin matrix of collapse, expand and concat_collocations, for every compact dataset (28 closed under the global "
+        text=("35 theorems about list models of the compaction in Collocator._create_return, _rows_for_secondaries, the NaN-padded "
+              "bin matrix of collapse, expand and concat_collocations, for every compact dataset (25 closed under the global "
               "context): the compaction is consistent for every row of raw pairs - exactly the collocated points stored, each once, "
               "valid indices, every stored point in a pair, every pair still naming its original point, two pairs sharing a stored "
               "point iff they share the original point; the pairs are determined by the order of the stored points "
               "(compact_is_consistent, consistent_no_merged_points, consistent_pairs_determined) - and the built dataset expands to "
               "the raw pairs carrying the original data (create_return_expands_to_raw_pairs); rows are running counts; column c of "
               "the bin matrix holds exactly the partner values of reference c in pair order, then padding (any lane, either "
-              "reference); expand gives one row per pair; expand(concat ds) = concat (map expand ds); the boolean checkers applied "
+              "reference); expand gives one row per pair; expand(concat ds) = concat (map expand ds) over unbounded indices, and in an index type of W values the concatenation is "
+              "the model's modulo W, equal to it exactly when the totals of stored points fit (concat_fits_width_iff, "
+              "expand_concat_any_width; W = 2^63 is the code); the boolean checkers applied "
               "to implementation output are sound. Over the standard-library reals: the fields of a call without custom functions "
               "are exactly mean, std, number = sum/n, sqrt(sum of squared deviations/n), n over the non-NaN partner values (NaN / "
               "NaN / 0 iff all are NaN), invariant under rearranging the pair list; a custom function replaces only the default of "
@@ -177,7 +179,10 @@ CHECKS = {
               "/ collapse / concat_collocations / Collocator.collocate on generated datasets (1-1300 pairs, five variables per group "
               "incl. two of one shape), call histories (custom incl. view-returning m[0], m[-1], m[h//2]; overriding; plain; "
               "rearranged pairs; other reference) and collocate results incl. seed-independent and random SPARSE, UNORDERED "
-              "track / station cases (300-3000 points, 3-12 stations, both roles, flat and gridded); id rows, counts, NaN-ness, "
+              "track / station cases (300-3000 points, 3-12 stations, both roles, flat and gridded) and seed-independent "
+              "concatenations of two and three dense collocate results passing 255 and 65535 stored points (dtype of "
+              "Collocations/pairs recorded); every third dataset carries a variable with |offset| / spread = 1e5, 1e7 or 1e9 judged "
+              "within 8 times the error bound of the two-pass std; id rows, counts, NaN-ness, "
               "field names and view results are compared exactly, mean / std against long-double sums (1e-9), sparse results also "
               "against a brute-force search."),
         note=COMMON_NOTE + " xarray selection/concat and numpy nan-statistics are modelled as list operations and exercised (rounding of nanmean/nanstd compared at 1e-9, infinities not generated); aliasing of numpy views and statelessness are facts about the Python code tied by the view collapsers and call histories, not modelled (collapse_call_independent holds by construction in the stateless model); the numba row-assignment variant is not installed here; real-number axioms and funext in the statistics theorems.",
@@ -271,7 +276,7 @@ CHECKS = {
         technique="Coq proof (NoDup/Permutation refinement to the brute-force collocation; invariants of the bundling loop; queue transition system over all interleavings with liveness by an explicit scheduler and a decreasing measure, exact characterisation of weaker parents) + end-to-end differential runs with schedule perturbations and queue traces evaluated in Coq",
         design="5/C05"),
     "C11": dict(
-        text=("33 theorems (closed under the global context) about an executable model of FileSet write / read / collect / find / move / "
+        text=("38 theorems (closed under the global context) about an executable model of FileSet write / read / collect / find / move / "
               "copy / convert / delete on a disk = finite map path -> content, names from the proved C02 renderer / parser, compression "
               "decided as in files/utils.py: move_conserves (core), progress, write_read, convert_reads_back, written_is_found for "
               "every end spelling C02 proves, delete_exact, dry_run_noop, empty_selection_noop, read / write_with_args, "
@@ -283,19 +288,23 @@ CHECKS = {
               "evaluated on the observed tree, move_sequential the one-worker case); post_reader is a function of the file's own FileInfo "
               "(read_applies_post_reader_to_own_entry with its fileset[t] / collect / convert forms, decompression_is_transparent: "
               "never the temporary decompressed file's) and copy_is_independent (after move(copy=True) a later write to the original "
-              "leaves the copy's content, and vice versa). Tie: random plus directed histories (year end, "
+              "leaves the copy's content, and vice versa); reading operations return the whole disk unchanged (reading_keeps_disk, "
+              "read_history_keeps_disk, collect_reads_each_file_alone) and an overwrite leaves exactly what the last write alone "
+              "produces (overwrite_forgets, overwrite_reads_last). Tie: random plus directed histories (year end, "
               "removed-then-asked, single-file filesets, failing moves, handlers built from bound methods of three signatures, "
               "copy-then-overwrite-in-place, post_readers that checksum file_info.path / times / attr on plain and .gz / .bz2 / .xz / .zip "
-              "filesets through read, fileset[t], fileset[s:e], collect, icollect, convert) on real "
+              "filesets through read, fileset[t], fileset[s:e], collect, icollect, convert; compressed filesets with ONE base name in many "
+              "sub directories read by slow readers in the default worker pools beside bystander files in temp_dir; NetCDF data sets "
+              "with variables in pseudo groups overwritten in place) on real "
               "FileSets in child processes; per-step tree listings canonicalised independently of typhon and compared with the "
               "model's step evaluated in Coq; the object's default dictionaries observed after every call; after a move that raised, "
               "the observed tree must equal the model's move of exactly the files that arrived; a file removed by the object's own "
-              "delete() / move() must never be handed out again by fileset[t]; no two paths of the tree may be one inode."),
+              "delete() / move() must never be handed out again by fileset[t]; no two paths of the tree may be one inode; the SHA-1 of every file is unchanged across read-only steps."),
         note=COMMON_NOTE + " find() is taken as its brute-force filter (C01); worker pools sequentialised (C10); moves whose target names collide are outside the hypotheses and not compared; NetCDF4 only in the thorough tier, single-threaded, in a child process.",
         technique="Coq proof (induction over the selected files, over operation histories and over call histories on a finite-map disk, reuse of the C02 round-trip theorems for all three end kinds) + vm_compute correspondence of per-step tree listings and of laws evaluated on the implementation's output from child-process runs of the real FileSet",
         design="5/C11"),
     "C16": dict(
-        text=("32 theorems (closed under the global context): the boolean checker closest_ok decides the property's specification "
+        text=("41 theorems (closed under the global context): the boolean checker closest_ok decides the property's specification "
               "for every population, filter, exclusion and timestamp (closest_ok_iff_spec; it accepts exactly the covering "
               "candidates, else exactly the minimisers: accepts_exactly_covering, accepts_exactly_minimisers); the model of "
               "find_closest - exact-name short cut, window t -+ one fixed sub-directory period (366 d / 31 d / day / ...: "
@@ -307,9 +316,16 @@ CHECKS = {
               "flat model the correspondence runs (composed_is_flat_model); window edges (closed at t - P, open at t + P, covering "
               "file of a neighbouring directory found, files two fixed-length directories away never returned) and the dispatch of "
               "fileset[t] / fileset[t, filters] for datetime, str, tuple and list items (getitem_reads_closest, getitem_meets_spec) "
-              "are theorems; single-file filesets answer with their file; the code before fix c46288c is refuted. Tie on every run: "
+              "are theorems; filters are dicts with any number of white-list and black-list entries over any number of user "
+              "placeholders: a file is a candidate iff every entry lets it pass (all_filters_apply, tree_all_filters_apply) and the "
+              "order of the entries is irrelevant to the specification, the checker and both models (dict_order_irrelevant, "
+              "filter_order_irrelevant; dict_composed_is_flat with the numbering of placeholders and values proved adequate: "
+              "encoded_filters_agree, pool_numbering_ok); single-file filesets answer with their file; the code before fix c46288c is "
+              "refuted. Tie on every run: "
               "FileSet.find_closest / fileset[...] (datetime, pandas.Timestamp, str, tuples, lists) on harness-built and 57 directed "
-              "edge-case trees, histories on one object (vanished files, the same filter key asked before with another value), each "
+              "edge-case trees, trees with one or two user placeholders and multi-entry filter dicts in both key orders, two decoy FileSet "
+              "objects with the same placeholder names and other regexes alive during every query, the time coverage re-assigned after "
+              "the object has looked at its files (24 directed trees + half of the random trees without end fields), histories on one object (vanished files, the same filter key asked before with another value), each "
               "answer judged by the certified checker (accepted_iff_spec makes every rejection a failing input), the composed model "
               "evaluated beside it with its hypotheses decided in Coq."),
         note=COMMON_NOTE + " Trusted: find = its C01 model (C01's own tie), get_info (C02, compared per file), the template-to-layout split (decided per generated template and compared with the harness's own per tree), pandas string parsing, Python re/glob/datetime/numpy; timestamps whose window leaves the range of datetime are outside the theorems; np.datetime64 / datetime.date items are outside the documented interface (datetime or str).",
@@ -332,7 +348,8 @@ CHECKS = {
               "(find_asis_refuted) and the unclamped look-back, which raised OverflowError exactly for 0 < start - datetime.min < P "
               "(lookback_overflow_asis_exact, lookback_overflow_asis_refuted). Tie: the real FileSet on generated directory trees written with the harness's own "
               "renderer (152 quick / 1854 thorough incl. fsspec zip, and a directed stream of 8 layouts with files in years 1-2 asked for "
-              "periods starting 1 us ... P + 1 day after datetime.min), compared with the specification inside the hypotheses (a "
+              "periods starting 1 us ... P + 1 day after datetime.min; 24 directed cases and half of the random ones put the queries to ONE "
+              "object whose time_coverage was re-assigned after find() / len / `in` had filled its info cache), compared with the specification inside the hypotheses (a "
               "mismatch is a failing input) and with the algorithmic model outside them; ties of (t0, t1) are checked against the "
               "unsorted stream of the same FileSet, every time-bundle query (widths 30min ... 2D) bin by bin with the Coq edges and "
               "with pandas' own group labels."),
